@@ -447,7 +447,8 @@ class Tie:
             if why:
                 self.disagreements.append({"kind": kind, "payload": payload, "why": why, "real": real, "model": out})
             # routine failing-input search on a sample, and always on a disagreement
-            if hasattr(prop, "oracle") and (why or idx < n_corpus or idx % max(1, len(kept) // osample) == 0):
+            if hasattr(prop, "oracle") and (why or idx < n_corpus or getattr(prop, "ORACLE_EVERY", False)
+                                            or idx % max(1, len(kept) // osample) == 0):
                 self.oracle_evals += 1
                 msg = call_oracle(prop, kind, payload)
                 if msg:
